@@ -230,6 +230,10 @@ func c15Place(pos int, t *c15T) (src string, want string) {
 		return "package main\n\n" + c15Types + "package_info ext =\n  type Box<T>\n  type Pair<T, U>\n  type Plain\n  let Fn: int -> " + sig + " -> string\n\nlet h () = ext.Fn 1\n",
 			"(func(_r0" + gt + ")string{returnext.Fn(1,_r0)})"
 	}
+	if pos == 5 { // explicit type argument on a partial application (stored, and as a pipe stage)
+		return c15Prelude + "package_info ext2 =\n  let Conv<T>: string->int->T\n\nlet m () = ext2.Conv<" + t.show(0) + "> \"x\"\n\nlet m2 () = 3 |> ext2.Conv<" + t.show(0) + "> \"y\"\n",
+			"returnext2.Conv[" + gt + "](\"x\",_r0)"
+	}
 	// explicit type argument
 	return c15Prelude + "package_info ext2 =\n  let Mk<T>: ()->[]T\n\nlet m () = ext2.Mk<" + t.show(0) + "> ()\n", "ext2.Mk[" + gt + "]()"
 }
@@ -245,6 +249,9 @@ func c15Check(pos int, g *c15Gen, t *c15T) {
 	verifAssert(!p, "type expression is accepted: "+msg)
 	verifNote(t.show(0) + "  =>  " + t.goType())
 	verifAssert(indexOf(stripAll(out), want, 0) >= 0, "Go type follows the documented grammar")
+	if pos == 5 {
+		verifAssert(indexOf(stripAll(out), "returnext2.Conv["+t.goType()+"](\"y\",_r0)", 0) >= 0, "Go type follows the documented grammar (type argument of a pipe stage)")
+	}
 	verifCover("end")
 }
 
@@ -304,11 +311,12 @@ func c15Spine(pos int) {
 	c15Check(pos, g, t)
 }
 
-func Harness_C15_SpineParam()      { c15Spine(0) }
-func Harness_C15_SpineField()      { c15Spine(1) }
-func Harness_C15_SpinePayload()    { c15Spine(2) }
-func Harness_C15_SpinePkgInfoSig() { c15Spine(3) }
-func Harness_C15_SpineTypeArg()    { c15Spine(4) }
+func Harness_C15_SpineParam()          { c15Spine(0) }
+func Harness_C15_SpineField()          { c15Spine(1) }
+func Harness_C15_SpinePayload()        { c15Spine(2) }
+func Harness_C15_SpinePkgInfoSig()     { c15Spine(3) }
+func Harness_C15_SpineTypeArg()        { c15Spine(4) }
+func Harness_C15_SpineTypeArgPartial() { c15Spine(5) }
 
 // structural family: trees from choices over four atoms
 func c15Run(pos int) {
@@ -320,16 +328,17 @@ func c15Run(pos int) {
 	c15Check(pos, g, t)
 }
 
-func Harness_C15_Param()      { c15Run(0) }
-func Harness_C15_Field()      { c15Run(1) }
-func Harness_C15_Payload()    { c15Run(2) }
-func Harness_C15_PkgInfoSig() { c15Run(3) }
-func Harness_C15_TypeArg()    { c15Run(4) }
+func Harness_C15_Param()          { c15Run(0) }
+func Harness_C15_Field()          { c15Run(1) }
+func Harness_C15_Payload()        { c15Run(2) }
+func Harness_C15_PkgInfoSig()     { c15Run(3) }
+func Harness_C15_TypeArg()        { c15Run(4) }
+func Harness_C15_TypeArgPartial() { c15Run(5) }
 
 // identifier family: one atom is an identifier of 3..6 symbolic lower-case
 // bytes, alone or under one constructor, in every position.
 func Harness_C15_Ident() {
-	pos := verifChoice("pos", 5)
+	pos := verifChoice("pos", 6)
 	g := &c15Gen{budget: 3, symLeft: true}
 	a := g.atom("t")
 	var t *c15T
@@ -348,7 +357,7 @@ func Harness_C15_Ident() {
 
 // every concrete atom in every position
 func Harness_C15_Atoms() {
-	pos := verifChoice("pos", 5)
+	pos := verifChoice("pos", 6)
 	g := &c15Gen{budget: 1}
 	c15Check(pos, g, g.atom("t"))
 }
